@@ -190,7 +190,7 @@ func (t *Table) Match(p *Pat, id ID, env Env, yield func(Env) bool) bool {
 		return yield(env)
 	case '?':
 		if b, ok := env[p.Name]; ok {
-			if b == id {
+			if b == id || (t.Alias != nil && (t.Alias[b] == id || t.Alias[id] == b)) {
 				return yield(env)
 			}
 			return false
@@ -199,6 +199,20 @@ func (t *Table) Match(p *Pat, id ID, env Env, yield func(Env) bool) bool {
 		n[p.Name] = id
 		return yield(n)
 	}
+	// matching modulo the equalities known on the current path class (Alias: name of a call result -> the
+	// value the inlined callee returned on this class)
+	if t.Alias != nil {
+		if to, ok := t.Alias[id]; ok && to != id {
+			if t.matchBody(p, id, env, yield) {
+				return true
+			}
+			return t.Match(p, to, env, yield)
+		}
+	}
+	return t.matchBody(p, id, env, yield)
+}
+
+func (t *Table) matchBody(p *Pat, id ID, env Env, yield func(Env) bool) bool {
 	tm := &t.terms[id]
 	switch p.Name {
 	case "~in":
